@@ -36,6 +36,7 @@ type c16Stats struct {
 	Rules    map[string]int `json:"rules"`
 	Samples  []string       `json:"samples"`
 	Outcomes map[string]int `json:"outcomes"`
+	Skipped  int            `json:"skipped"` // inputs not decoded any more after three witnesses of non-termination in the batch
 }
 
 func (s *c16Stats) find(rule, detail string) {
@@ -91,6 +92,11 @@ func decodeExp(st *c16Stats, ut uType, param string, in []byte, slow bool, mustE
 			buf[i] = 0xa5
 		}
 	}()
+	if slow && st.Rules["does-not-terminate"] >= 3 {
+		// three witnesses of non-termination are enough for this batch: every further one costs 20 s and a spinning task
+		st.Skipped++
+		return
+	}
 	st.Decodes++
 	if slow {
 		fmt.Fprintf(os.Stderr, "INPUT %s type=%s params=%q\n", hex.EncodeToString(in), ut.Name, param)
@@ -104,6 +110,7 @@ func decodeExp(st *c16Stats, ut uType, param string, in []byte, slow bool, mustE
 		select {
 		case <-done:
 		case <-time.After(20 * time.Second):
+			workerMustRecycle = true
 			st.find("does-not-terminate", fmt.Sprintf("decoding %s into %s (params %q) still running after 20 s of an otherwise idle process", hexHead(in, 64), ut.Name, param))
 			return
 		}
@@ -315,7 +322,7 @@ func init() {
 	checks["C16"] = func(t *testing.T) int {
 		rep := NewReport("C16")
 		pool := NewPool(0)
-		pool.Timeout = 4 * time.Minute
+		pool.Timeout = 90 * time.Second // a batch takes a second or two; one that does not return is re-run alone below
 		maxL := 2
 		if rep.Tier == "thorough" {
 			maxL = 3
@@ -368,14 +375,21 @@ func init() {
 			handle(i, r, false)
 		}
 		// batches that crashed or timed out are re-run alone in slow mode (every input logged, 20 s per input)
-		for _, i := range redo {
-			var a c16Args
-			json.Unmarshal(jobs[i].Args, &a)
-			a.Slow = true
-			p1 := NewPool(1)
+		if len(redo) > 0 {
+			var rjobs []Job
+			for _, i := range redo {
+				var a c16Args
+				json.Unmarshal(jobs[i].Args, &a)
+				a.Slow = true
+				rjobs = append(rjobs, Job{Kind: "c16", Check: "C16", Args: mustJSON(a)})
+			}
+			// (each slow batch in a process of its own: a decode that never returns keeps spinning there)
+			p1 := NewPool(min(len(rjobs), 8))
 			p1.Timeout = 60 * time.Minute
-			rr := p1.RunAll([]Job{{Kind: "c16", Check: "C16", Args: mustJSON(a)}})
-			handle(i, rr[0], true)
+			p1.Env = []string{"VWORKER_RECYCLE=1"}
+			for k, rr := range p1.RunAll(rjobs) {
+				handle(redo[k], rr, true)
+			}
 		}
 		rep.Cov["states"] = total.Decodes
 		rep.Cov["transitions"] = total.Decodes
